@@ -12,7 +12,7 @@ def units(tier):
 
 META = {
     "level_if_complete": "other",
-    "functions_under_contract": [],
+    "functions_under_contract": ['linear_operator.utils.minres.minres', 'linear_operator.utils.minres._jit_minres_updates', 'linear_operator.utils.contour_integral_quad.contour_integral_quad', 'SqrtInvMatmul.forward', 'LinearOperator.sqrt_inv_matmul (+Diag/Identity overrides)', 'LinearOperator.zero_mean_mvn_samples (ciq_samples branch)'],
     "trusted_base": ["real torch float64 dense linear algebra (solve, eigh, cholesky, logdet) as the oracle"],
     "assumptions": ["bounded tier only"] + list(RTC_META.get("assumptions", [])),
     "explanation": RTC_META["explanation"],
